@@ -142,6 +142,37 @@ def _task_long(_):
     return res
 
 
+PREFIXES = ['org.txdbus.PythonException.', 'org.txdbus.',
+            'org.freedesktop.DBus.Error.', 'org.freedesktop.DBus.',
+            'org.freedesktop.DBus', ':1.', '/org/freedesktop/DBus/',
+            '/org/freedesktop/DBus', 'org.freedesktop.DBus.Properties.']
+
+
+def _task_prefixed(task):
+    """names the library itself generates or knows start with fixed
+    prefixes; a validator must not treat what follows such a prefix any
+    differently: prefix + every string of length <= L over the alphabet, and
+    prefix + long / non-ASCII identifiers"""
+    prefix, L = task
+    from txdbus.error import MarshallingError
+    vals = _validators()
+    res = core.Result()
+    ext = ''.join(dict.fromkeys(ALPHABET_Q + SPECIALS))
+    tails = ['']
+    for n in range(1, L + 1):
+        tails += [''.join(t) for t in itertools.product(ext, repeat=n)]
+    tails += ['\u041e\u0448\u0438\u0431\u043a\u0430', 'Erreur_r\xe9seau',
+              'x' * 230, 'x' * 300, 'A' * (255 - len(prefix)),
+              'A' * (256 - len(prefix)), 'Abc\n', 'Abc Def', 'Abc.', '9abc']
+    for t in tails:
+        _check_string(res, prefix + t, vals, MarshallingError)
+    res.count('states', len(tails))
+    res.count('nontrivial', len(tails))
+    res.count('transitions', 2 * len(tails) * len(grammar.VALIDATORS))
+    res.sample(prefix + tails[-1])
+    return res
+
+
 # -- constructor slots -------------------------------------------------------
 
 def _slots():
@@ -295,6 +326,7 @@ def run(ctx):
     tasks += [(ext, ch, Ls) for ch in ext]
     ctx.map(_task_strings, tasks)
     ctx.map(_task_long, [0])
+    ctx.map(_task_prefixed, [(p, 2 if ctx.quick else 3) for p in PREFIXES])
     ctx.map(_task_slots, [(alphabet, ch, Lslot) for ch in alphabet]
             + [(alphabet, '', 1)]
             + [(ext, ch, 3) for ch in SPECIALS])
